@@ -114,7 +114,8 @@ func (e *env) prototypes(c *config.Configuration) {
 	for _, t := range jwtfTTLs {
 		p.Finalizers = append(p.Finalizers, mech("jwtf-"+t.Name, "jwt", withTTL(map[string]any{
 			"signer": map[string]any{"key_store": map[string]any{"path": e.signer}},
-			"claims": `{"who": {{ quote .Subject.ID }} }`,
+			// a claims template naming the validity claims: they are the system's, the token lives for the configured ttl
+			"claims": `{"who": {{ quote .Subject.ID }}, "exp": 1, "nbf": 1, "iat": 1 }`,
 		}, "ttl", t)))
 	}
 	for i, h := range jwksHTTPSpecs {
